@@ -204,6 +204,12 @@ def isinstance1(I, v, cname):
     if isinstance(v, VAny):
         if v.kindtag == 'regex':
             return cname in ('re.Pattern', 'object')
+        if v.kindtag == 'nonpattern':
+            # some object that is no string, no compiled pattern, no list and no class (C20): anything else it may be
+            if cname in ('bytes', 'str', 're.Pattern', 'list', 'type', 'unicode', 'basestring'):
+                return False
+            if cname == 'object':
+                return True
         if cname == 're.Pattern':
             return z3.Function('isinstance_re_Pattern', Val, z3.BoolSort())(v.t)
         return z3.Function('isinstance_' + cname.replace('.', '_'), Val, z3.BoolSort())(v.t)
